@@ -731,6 +731,27 @@ def _ctx_attr_flow(ctx, entries, depth: int = 3):
     return reads, writes
 
 
+def rule_buffer_order_is_task_order(ctx) -> None:
+    """"the same ... in the same order as running those turns one after another": the buffers of one batch share the turn id and the
+    slice, so the stable buffer sort keeps the caller's task order - the order of the turn-by-turn loop.  Any further component
+    of the sort key that reads the buffer (the agent id, the dialogue, a length) re-orders staging and commit away from the task
+    order whenever the two differ (agent10 before agent9): results[i] no longer belongs to tasks[i], log lines and version etags
+    come in another order."""
+    kf = ctx.prog.funcs.get(PAR + ":_sort_turn_buffers._key") or ctx.func(PAR + ":_sort_turn_buffers")
+    allowed = {"turn_id", "slice_idx"}
+    read = set()
+    for x in walk_no_defs(kf.node):
+        if isinstance(x, ast.Call) and call_tail(x) == "get" and x.args and const_str(x.args[0]):
+            read.add(const_str(x.args[0]))
+        elif isinstance(x, ast.Subscript) and const_str(x.slice):
+            read.add(const_str(x.slice))
+    ctx.floor("C10.COMMIT", "buffer fields read by the buffer sort key", len(read), 2)
+    extra = sorted(read - allowed)
+    ctx.check(not extra, "C10.COMMIT", f"{kf.qual}/buffer-order-keeps-task-order", kf.loc(), "the buffer sort key reads the turn id and the slice only (ties keep the task order)",
+              f"the buffer sort key also reads {extra}: within one batch (same turn, same slice) staging and commit then follow that field instead of the task order - with tasks [C, A, B] or agent8, agent9, "
+              "agent10 the results, the per-file log order, the apply order and the version etags differ from the turn-by-turn loop")
+
+
 def rule_clone_carries_inputs(ctx) -> None:
     """"the same per-agent results ... the same log lines": the compute phase runs run_turn under a context the driver builds per
     agent.  Everything run_turn (and what it hands its context to) READS from the context and does not itself put there is an
@@ -860,6 +881,7 @@ def rule_readers_accept_the_view(ctx) -> None:
 
 
 def run(ctx) -> None:
+    rule_buffer_order_is_task_order(ctx)
     rule_clone_carries_inputs(ctx)
     rule_readers_accept_the_view(ctx)
     rule_retry_admitted(ctx)
